@@ -167,7 +167,14 @@ where
     type Values = Timeline::Target;
 
     fn advance(&mut self, elapsed_seconds: f32) {
-        self.state_duration += Duration::from_secs_f32(elapsed_seconds);
+        // Saturate instead of panicking when an astronomically large (but finite) amount of time
+        // is reported or accumulated.
+        let elapsed = match Duration::try_from_secs_f32(elapsed_seconds) {
+            Ok(elapsed) => elapsed,
+            Err(_) if elapsed_seconds > 0.0 => Duration::MAX,
+            Err(_) => Duration::from_secs_f32(elapsed_seconds),
+        };
+        self.state_duration = self.state_duration.saturating_add(elapsed);
         self.update_current_values();
     }
 
